@@ -23,6 +23,96 @@ TRUSTED = ["sym slices", "std::process::Termination for Result: Err => non-zero 
 LIB = "muxide::api::"
 
 
+def setter_effects(lib):
+    """builder methods of the library that take `mut self` and return Self: {method name: {field: 'replace' | 'update'}}
+    `replace`: the field is assigned a value that does not depend on its previous content; `update`: anything else"""
+    g = mir.Graph(lib)
+    st = mir.Stores(g)
+    out = {}
+    for p, b in lib.bodies.items():
+        if b["in_test_cfg"] or not b.get("impl_self", "").startswith("api::MuxerBuilder"):
+            continue
+        eff = {}
+        for (bb, i, (root, path), why, node) in st.sites.get(p, []):
+            if root not in (("arg", 1), ("argval", 1)) or not path:
+                continue
+            fld = path[0]
+            kind = "update"
+            if why.startswith("assign") and node.get("k") == "assign" and len(path) == 1:
+                e = sym.expr_rv(b, node["rv"])
+                reads = [y for y in sym.walk(e) if isinstance(y, tuple) and len(y) > 1 and y[0] in ("load", "refplace") and str(y[1]).startswith("arg1." + fld)]
+                if not reads:
+                    kind = "replace"
+            if eff.get(fld) != "update":
+                eff[fld] = kind if eff.get(fld) in (None, kind) else "update"
+        # by-value `mut self`: plain field assignments `self.f = ..` are not pointer stores
+        for blk in b["blocks"]:
+            if blk["cleanup"]:
+                continue
+            for st_ in blk["stmts"]:
+                if st_["k"] == "assign" and st_["place"]["l"] == 1 and st_["place"]["p"] and st_["place"]["p"][0].get("k") == "field" and not any(e_.get("k") == "deref" for e_ in st_["place"]["p"]):
+                    fld = st_["place"]["p"][0].get("name")
+                    if fld is None:
+                        continue
+                    kind = "update"
+                    if len(st_["place"]["p"]) == 1:
+                        e = sym.expr_rv(b, st_["rv"])
+                        reads = [y for y in sym.walk(e) if isinstance(y, tuple) and len(y) > 1 and y[0] in ("load", "refplace") and str(y[1]).startswith("arg1." + fld)]
+                        if not reads:
+                            kind = "replace"
+                    if eff.get(fld) != "update":
+                        eff[fld] = kind if eff.get(fld) in (None, kind) else "update"
+        if eff and b["locals"][0]["ty"].startswith("api::MuxerBuilder"):
+            out[mir.norm(p).split("::")[-1]] = eff
+    return out
+
+
+def order_rule(prog, run, u, b):
+    eff = setter_effects(prog.lib)
+    run.extra["builder_setters"] = {k: v for k, v in sorted(eff.items())}
+    calls_ = []
+    for bb, t, name, info in mir.calls(b):
+        nm = mir.norm(name or "")
+        if nm.startswith(LIB + "MuxerBuilder::") and nm.split("::")[-1] in eff:
+            calls_.append((bb, nm.split("::")[-1], t))
+    n = 0
+    for (bb1, m1, t1) in calls_:
+        for (bb2, m2, t2) in calls_:
+            if bb1 == bb2:
+                continue
+            for fld, k2 in eff[m2].items():
+                if k2 == "replace" and fld in eff[m1] and bb2 in mir.reachable(b, mir.succs(b, bb1)):
+                    n += 1
+                    run.bad("R2", "order %s then %s" % (m1, m2), "`%s` replaces the builder's `%s` wholesale but can run after `%s`, which had already configured it: the earlier option is lost" % (m2, fld, m1), mir.loc_of(t2))
+    if n == 0:
+        run.ok("R2", "setter order", "no wholesale replacement of a configuration field after it was (partly) set: %d builder calls examined" % len(calls_))
+    run.floor("R2", len(calls_), 3, "builder setter calls in the mux command")
+
+
+def loud_rule(run, u, g, mux):
+    deny = ("ok", "err", "unwrap_or", "unwrap_or_default", "unwrap_or_else")
+    reach = g.reach([mux])
+    # closures created in reachable functions
+    for p in list(u.bodies):
+        if u.bodies[p].get("kind") == "Closure" and any(mir.norm(u.bodies[p].get("parent") or "") == mir.norm(f) for f in reach):
+            reach.add(p)
+    hits, control = [], 0
+    for p, b in u.bodies.items():
+        if b["in_test_cfg"]:
+            continue
+        for bb, t, name, info in mir.calls(b):
+            n = mir.norm(name or "")
+            if n.startswith("std::result::Result::") and n.split("::")[-1] in deny:
+                control += 1
+                if p in reach:
+                    hits.append((mir.norm(p), n.split("::")[-1], sym.show(sym.expr(b, t["args"][0]))[:80], mir.loc_of(t)))
+    for (f_, m_, src, loc) in hits:
+        run.bad("R6", "%s discards Result via %s: %s" % (f_, m_, src), "the error of `%s` is discarded with `.%s()` on the mux path: malformed input does not stop the command" % (src, m_), loc)
+    if not hits:
+        run.ok("R6", "no discarded Result on the mux path", "%d functions on the mux path; detector matches %d site(s) elsewhere in the binary (positive control)" % (len(reach), control))
+    run.check(control >= 1, "R6", "positive control", "the detector matches the display-only unwrap_or in the info command", "the detector no longer matches anything in the binary: the rule would pass vacuously")
+
+
 def fn(u, name):
     m = [p for p in u.bodies if p == name or p.endswith("::" + name)]
     return m[0] if len(m) == 1 else None
@@ -71,6 +161,11 @@ def check(prog, run):
             if "std::io::Write" in (info or {}).get("trait", "") and f_ != mux:
                 writers.append((mir.norm(f_), nm))
     run.check(not writers, "R1", "no-other-writer", "no filesystem write besides the create handed to the library", "the mux command can write files outside the library: %s" % writers)
+    # ---- R2 (ordering): a builder call that *replaces* a configuration field wholesale must not follow a call that set part of it
+    order_rule(prog, run, u, b)
+    # ---- R6: input decoding is loud
+    run.rule("R6", "input decoding fails loudly: on the mux path no Result is discarded through .ok()/unwrap_or*/err() (a malformed input must stop the command)")
+    loud_rule(run, u, g, mux)
     # ---- R2
     c04.ROLE_NAMES.clear()
     for i in range(1, b["argc"] + 1):
